@@ -3,21 +3,33 @@
 What is decided here and not by a theorem (the property is *partial*): that the real `apply` of the
 seven built-in algorithms and of the compression aggregators does not write into the caller's
 containers, does not delete (donate) the caller's buffers and keeps no state outside its arguments.
-Along every generated multi-round history with repeated participation the harness
-  (1) snapshots the input state (deep value copy; every array leaf is read, so a deleted buffer shows),
-  (2) calls `apply` twice with the very same arguments and compares both outputs bit for bit,
-  (3) checks that the input state still equals its snapshot,
-  (4) restores a serialised copy of the state (pickle / fedjax save_state+load_state / msgpack leaves),
-      calls `apply` on it and — from one branch point on — continues a second history from the restored
-      copy, comparing every subsequent state with the original history,
-  (5) at the end re-checks the snapshots of *all* earlier states of the history.
+Every generated multi-round history with repeated participation is run on ONE algorithm / aggregator
+object (hidden state may depend on what that object did last), in four passes:
+  (1) the ordinary training loop: every state object returned by `apply` is fed straight back into the
+      next `apply`, nothing in between but reads; every state is KEPT together with a deep value snapshot
+      (every array leaf is read, so a deleted buffer shows) and the identities of its containers, and
+      after every round ALL kept states are compared with their snapshots;
+  (2) every kept round is applied again from its kept state and compared bit for bit (state and
+      diagnostics) with what it returned originally; all kept states are re-checked after each call;
+  (3) serialised copies (pickle / fedjax save_state+load_state / msgpack leaves) of every kept state are
+      applied, and from one branch point a second history is continued on a SECOND object from the
+      restored copy and compared round by round;
+  (4) the loop is run a second time from the kept initial state; before one round a round whose k-th
+      client cannot be read raises half way: its input must be untouched and the retry must reproduce the
+      failure-free history.
+Once per run the same histories (bytes / str / tuple client ids) are also run in two fresh interpreters
+that differ only in PYTHONHASHSEED and compared bit for bit.
 These are the independent oracle of the property.  The modelled part (Lean: APFL table, compression
 state/keys, agnostic window, FedAvg round) is compared with the compiled model on the same histories.
 """
 import dataclasses
+import hashlib
+import json
 import math
 import os
 import pickle
+import subprocess
+import sys
 import tempfile
 
 import numpy as np
@@ -115,6 +127,48 @@ def close(a, b, scale):
   return a.shape == b.shape and bool(np.all(np.abs(a - b) <= 2e-4 * (1.0 + scale)))
 
 
+def digest(s):
+  return hashlib.sha1(repr(s).encode()).hexdigest()[:16]
+
+
+def real_id(case, i):
+  """client ids as the real code sees them (the case and the Lean model use the integer)"""
+  m = case.get('idmode', 'int')
+  if m == 'int':
+    return i
+  if m == 'bytes':
+    return b'client_%d' % i
+  if m == 'str':
+    return 'client_%d' % i
+  return ('site', b'%d' % i)
+
+
+def _containers(obj, path='state'):
+  if dataclasses.is_dataclass(obj) and not isinstance(obj, type):
+    yield path, obj
+    for f in dataclasses.fields(obj):
+      yield from _containers(getattr(obj, f.name), f'{path}.{f.name}')
+  elif isinstance(obj, dict):
+    yield path, obj
+    for k in sorted(obj, key=repr):
+      yield from _containers(obj[k], f'{path}[{k!r}]')
+  elif isinstance(obj, (list, tuple)):
+    yield path, obj
+    for i, v in enumerate(obj):
+      yield from _containers(v, f'{path}[{i}]')
+
+
+def ident(obj):
+  """identities of the containers of a kept state (they must stay the same objects)"""
+  return tuple((p, id(c)) for p, c in _containers(obj))
+
+
+def aliased(a, b):
+  """mutable containers (dict / list) shared between two states (recorded, not a failure by itself)"""
+  ia = {id(c) for _, c in _containers(a) if isinstance(c, (dict, list))}
+  return [p for p, c in _containers(b) if isinstance(c, (dict, list)) and id(c) in ia]
+
+
 class C10(core.Property):
   ID = 'C10'
   LEVEL = 'proof'
@@ -122,9 +176,14 @@ class C10(core.Property):
           'distinct clients per round chosen so that clients participate repeatedly, for each of FedAvg, FedProx, '
           'Mime, MimeLite, AgnosticFedAvg, HypCluster, APFL (key-dependent losses, stateful server optimizer, '
           'jit/debug backends; pmap in the thorough tier) and histories of 2..3 aggregation rounds for the uniform '
-          '(plain / arithmetic coding), rotated-uniform, DRIVE and TernGrad aggregators; every round: snapshot, two '
-          'identical calls, restored-copy call, one branch continued from a restored copy; codec in pickle / '
-          'save_state+load_state / msgpack leaves. non-trivial = at least two rounds, some client participates '
+          '(plain / arithmetic coding), rotated-uniform, DRIVE and TernGrad aggregators; client ids int / bytes / str / '
+          'tuple. Per history, on ONE algorithm (aggregator) object: (1) the plain training loop with every returned '
+          'state object fed straight back, all earlier states kept with value snapshots and container identities and '
+          're-checked after every round; (2) every kept round applied again from its kept state and compared with '
+          'what it returned; (3) restored copies (pickle / save_state+load_state / msgpack leaves) and a branch on a '
+          'second object; (4) a second run of the loop with a round that raises at an unreadable client, then the '
+          'retry; plus one pair of fresh interpreters with different PYTHONHASHSEED running the same histories. '
+          'non-trivial = at least two rounds, some client participates '
           'twice (algorithms) and every round really changes the state; distinct by case digest')
   TRUSTED = ['the runtime facts of C10 (no in-place write into the caller\'s containers, no donated caller buffer, '
              'no state outside ServerState/CompressionState) are MONITORED on the generated histories, not proved',
@@ -177,6 +236,19 @@ class C10(core.Property):
 
     self.grad_fn, self.per_example_loss = grad_fn, per_example_loss
     self._algs = {}
+    self._last_snaps = None
+
+    class Broken(client_datasets.ClientDataset):
+      """A client whose training batches cannot be read: iterating them raises (after the clients before it in
+      the cohort have been processed)."""
+
+      def shuffle_repeat_batch(self, hparams=None, **kwargs):
+        class V:
+          def __iter__(self_inner):
+            raise IOError('client data cannot be read')
+        return V()
+
+    self.Broken = Broken
     self._tmpdir = tempfile.mkdtemp(prefix='c10_')
 
   def mk_opt(self, spec):
@@ -193,9 +265,11 @@ class C10(core.Property):
     return self.cds.ShuffleRepeatBatchHParams(batch_size=2, num_epochs=None, num_steps=3, drop_remainder=True,
                                               seed=9)
 
-  def get_alg(self, name, cfg, backend):
-    key = (name, cfg, backend)
-    if key in self._algs:
+  def get_alg(self, name, cfg, backend, slot=0, fresh=False):
+    """Algorithm objects are cached per (config, slot) so that jit compilation is paid once per run; within a case
+    slot 0 runs the whole history, slot 1 the branch from a restored copy.  fresh=True builds new objects."""
+    key = (name, cfg, backend, slot)
+    if key in self._algs and not fresh:
       return self._algs[key]
     m, hp = self.mods, self.hparams(cfg)
     php = self.cds.PaddedBatchHParams(batch_size=4)
@@ -226,7 +300,8 @@ class C10(core.Property):
         alg = m['apfl'].adaptive_personalized_federated_learning(self.grad_fn, copt, sopt, hp, C0)
       else:
         raise ValueError(name)
-    self._algs[key] = alg
+    if not fresh:
+      self._algs[key] = alg
     return alg
 
   # ------------------------------------------------------------------ generation
@@ -253,6 +328,20 @@ class C10(core.Property):
               case['clusters'] = [[1, -1], [0, 2]]
             n += 1
             yield case
+    # the same histories in two fresh interpreters with different hash salts (one subprocess pair per case)
+    for x in range({'quick': 1, 'thorough': 2, 'search': 1}[tier]):
+      subs = []
+      modes = ['bytes', 'str', 'tuple']
+      for n, g in enumerate(AGGS):
+        sub = self.gen_agg(rng, g, n, 'quick')
+        sub['idmode'] = modes[(n + x) % 3]
+        subs.append(sub)
+      for n, a in enumerate(ALGS):
+        sub = self.gen_alg(rng, a, 0, 'quick')
+        sub.update(idmode=modes[(n + x + 1) % 3], backend='jit', cfg=x % 2, rounds=sub['rounds'][:2])
+        sub['ck'] = min(sub['ck'], 1)
+        subs.append(sub)
+      yield {'kind': 'xproc', 'hashseeds': [1 + 2 * x, 2 + 2 * x], 'subcases': subs}
     for kind, name, h in order:
       if kind == 'alg':
         yield self.gen_alg(rng, name, h, tier)
@@ -283,7 +372,11 @@ class C10(core.Property):
     case = {'kind': 'alg', 'alg': name, 'cfg': cfg, 'backend': backends[h % 4] if tier != 'thorough' else rng.choice(backends),
             'pop': pop, 'rounds': rounds, 'key_seed': rng.randrange(1000), 'ck': rng.randrange(n_rounds),
             'codec': CODECS[(h + ALGS.index(name)) % 3],
-            'w0': [rng.choice([-1, 0, 1, 2]) for _ in range(D)]}
+            'w0': [rng.choice([-1, 0, 1, 2]) for _ in range(D)],
+            'idmode': rng.choice(['int', 'bytes', 'bytes', 'str', 'tuple']),
+            'fault_round': rng.randrange(n_rounds), 'fault_pos': rng.randrange(3)}
+    if tier == 'thorough' and h % 10 == 0:
+      case['fresh'] = True                      # brand-new algorithm objects (not the per-run cached ones)
     if name == 'hypcluster':
       case['clusters'] = [[rng.choice([-2, -1, 0, 1, 2]) for _ in range(D)] for _ in range(rng.choice([2, 3]))]
     return case
@@ -301,9 +394,21 @@ class C10(core.Property):
         cohort = [list(x) for x in rounds[0]]     # identical inputs again: only the carried key differs
       rounds.append(cohort)
     return {'kind': 'agg', 'agg': name, 'levels': rng.choice([2, 4, 8, 3]), 'key_seed': rng.randrange(1000),
-            'rounds': rounds, 'codec': CODECS[(h + AGGS.index(name)) % 3]}
+            'rounds': rounds, 'codec': CODECS[(h + AGGS.index(name)) % 3],
+            'idmode': rng.choice(['int', 'bytes', 'bytes', 'str', 'tuple']), 'ck': rng.randrange(n_rounds),
+            'fault_round': rng.randrange(n_rounds), 'fault_pos': rng.randrange(3)}
 
   def shrink(self, case):
+    if case['kind'] == 'xproc':
+      subs = case['subcases']
+      if len(subs) > 1:
+        for i in range(len(subs)):
+          yield {**case, 'subcases': [subs[i]]}
+      else:
+        yield subs[0]          # an in-process failure does not need the second interpreter
+        if len(subs[0]['rounds']) > 1:
+          yield {**case, 'subcases': [{**subs[0], 'rounds': subs[0]['rounds'][:1], 'ck': 0}]}
+      return
     rs = case['rounds']
     if len(rs) > 1:
       for cut in (rs[:-1], rs[1:]):
@@ -328,6 +433,8 @@ class C10(core.Property):
         yield {**case, 'codec': 'pickle'}
       if case['ck'] != 0:
         yield {**case, 'ck': 0}
+    if case.get('idmode', 'int') != 'int':
+      yield {**case, 'idmode': 'int'}
 
   # ------------------------------------------------------------------ codecs
   def restore(self, state, codec):
@@ -353,6 +460,8 @@ class C10(core.Property):
   def evaluate(self, case, ctx):
     if case['kind'] == 'alg':
       return self.eval_alg(case, ctx)
+    if case['kind'] == 'xproc':
+      return self.eval_xproc(case, ctx)
     return self.eval_agg(case, ctx)
 
   def _datasets(self, case):
@@ -365,10 +474,24 @@ class C10(core.Property):
     return ds
 
   def eval_alg(self, case, ctx):
+    """One history on ONE algorithm object, every returned state object fed straight back in.
+
+    pass 1  the ordinary training loop  s_{t+1} = A.apply(s_t, clients_t): nothing between two rounds but reads;
+            every state is kept together with a deep value snapshot and the identities of its containers, and after
+            every round ALL kept states are compared with their snapshots;
+    pass 2  every kept round is applied again from its kept state on the same object (latest round first) and compared
+            with what it returned originally; all kept states re-checked after each call;
+    pass 3  restored copies: A.apply(restore(s_t)) for every t, and a branch continued on a SECOND algorithm object
+            from the copy restored before round ck, fed straight back, compared round by round;
+    pass 4  fault and retry: the loop is run again from the kept initial state on the same object; before round fr a
+            round whose k-th client cannot be read raises half way, the input must be untouched and the retry must
+            reproduce the failure-free history.
+    """
     jax, jnp = self.jax, self.jnp
     name = case['alg']
-    tags = [f'alg={name}', f'backend={case["backend"]}', f'rounds={len(case["rounds"])}', f'codec={case["codec"]}',
-            f'cfg={case["cfg"]}']
+    T = len(case['rounds'])
+    tags = [f'alg={name}', f'backend={case["backend"]}', f'rounds={T}', f'codec={case["codec"]}',
+            f'cfg={case["cfg"]}', f'ids={case.get("idmode", "int")}']
     part = [i for co in case['rounds'] for i in co]
     repeated = len(part) != len(set(part))
     tags.append(f'repeated_participation={repeated}')
@@ -377,165 +500,225 @@ class C10(core.Property):
       return Outcome(oracle_fail=f'{name}: {text}', key=f'C10/{name}/{kind}', tags=tuple(tags), **kw)
 
     try:
-      alg = self.get_alg(name, case['cfg'], case['backend'])
+      A = self.get_alg(name, case['cfg'], case['backend'], 0, fresh=case.get('fresh', False))
+      B = self.get_alg(name, case['cfg'], case['backend'], 1, fresh=case.get('fresh', False))
     except Exception as e:
       return fail(f'construct-{type(e).__name__}', f'constructing the algorithm raised {type(e).__name__}: {str(e)[:160]}')
     datasets = self._datasets(case)
     data_snap = [snap({k: v for k, v in d.all_examples().items()}) for d in datasets]
+    rid = lambda i: real_id(case, case['pop'][i]['id'])
+
+    def clients_for(r, broken_at=None):
+      cohort = case['rounds'][r]
+      keys = jax.random.split(jax.random.PRNGKey(case['key_seed'] + r), max(2, len(cohort)))
+      out = []
+      for j, i in enumerate(cohort):
+        ds = datasets[i] if j != broken_at else self.Broken(datasets[i].raw_examples)
+        out.append((rid(i), ds, keys[j]))
+      return out
+
+    def call(alg, state, clients):
+      with Watchdog(30):
+        out, diag = alg.apply(state, clients)
+      ctx.count('applies')
+      return out, diag
+
     if name == 'hypcluster':
       init_arg = [{'w': jnp.asarray(c, dtype=jnp.float32)} for c in case['clusters']]
     else:
       init_arg = {'w': jnp.asarray(case['w0'], dtype=jnp.float32)}
-    state = alg.init(init_arg)
-    states, snaps, diags = [state], [], []
-    branch = None
+    state = A.init(init_arg)
+    states, snaps, idents = [state], [snap(state)], [ident(state)]
+    O, Dg, diags = [], [], []
+
+    def recheck(when, current=None):
+      """every kept state still has the value (and the containers) it had when it was produced"""
+      for t in range(len(states)):
+        try:
+          now = snap(states[t])
+        except Unreadable as e:
+          kind = 'input-unreadable' if t == current else 'history-unreadable'
+          return fail(kind, f'{when}: the kept state {self._sname(t)} cannot be read any more: {e}')
+        if now != snaps[t]:
+          kind = 'input-mutated' if t == current else 'history-mutated'
+          what = ('the caller\'s input state' if t == current else f'the kept state {self._sname(t)}')
+          return fail(kind, f'{when}: {what} changed its value in place: {first_diff(snaps[t], now)} '
+                      f'(value when it was produced vs now)')
+        if ident(states[t]) != idents[t]:
+          return fail('history-containers-replaced', f'{when}: containers of the kept state {self._sname(t)} were replaced')
+      ctx.count('kept_state_rechecks', len(states))
+      return None
+
+    # ---------------- pass 1: the ordinary training loop
     changed_every_round = True
-    for r, cohort in enumerate(case['rounds']):
-      keys = jax.random.split(jax.random.PRNGKey(case['key_seed'] + r), max(2, len(cohort)))
-      clients = [(case['pop'][i]['id'], datasets[i], keys[j]) for j, i in enumerate(cohort)]
-      try:
-        s0 = snap(state)
-      except Unreadable as e:
-        return fail('unreadable', f'round {r}: the state returned by the previous round cannot be read: {e}')
-      snaps.append(s0)
+    for r in range(T):
+      clients = clients_for(r)
       k0 = snap([k for _, _, k in clients])
-      # ---- first call
       try:
-        with Watchdog(30):
-          out1, diag1 = alg.apply(state, clients)
-        o1, d1 = snap(out1), snap(dict(diag1))
+        out, diag = call(A, state, clients)
+        o, d = snap(out), snap(dict(diag))
       except TimeoutError:
         return fail('never-returns', f'round {r}: apply did not return within 30 s')
       except Unreadable as e:
         return fail('unreadable', f'round {r}: output of apply cannot be read: {e}')
       except Exception as e:
         return fail(f'raises-{type(e).__name__}', f'round {r}: apply raised {type(e).__name__}: {str(e)[:200]}')
-      ctx.count('applies')
-      # ---- the caller's state keeps its value and stays readable
-      try:
-        s_after = snap(state)
-      except Unreadable as e:
-        return fail('input-unreadable', f'round {r}: after apply(state, clients) the caller\'s state cannot be '
-                    f'read any more: {e}')
-      if s_after != s0:
-        extra = ''
-        try:
-          with Watchdog(30):
-            out2, _ = alg.apply(state, clients)
-          d = first_diff(o1, snap(out2))
-          extra = (f'; a second identical call apply(state, clients) then returns a different state: {d} '
-                   f'(first vs second call)') if d else '; a second identical call still returns the same state'
-        except Exception as e:
-          extra = f'; a second identical call raises {type(e).__name__}'
-        return fail('input-mutated', f'round {r}: apply(state, clients) changed the caller\'s state in place: '
-                    f'{first_diff(s0, s_after)} (before vs after the call){extra}')
-      ctx.count('input_state_snapshots_checked')
+      bad = recheck(f'round {r} of the training loop (each returned state fed straight back into apply)', current=r)
+      if bad:
+        if bad.key.endswith('input-mutated'):
+          try:
+            out2, _ = call(A, state, clients)
+            dd = first_diff(o, snap(out2))
+            bad.oracle_fail += ('; a second identical call apply(state, clients) then returns a different state: '
+                                f'{dd} (first vs second call)') if dd else '; a second identical call returns the same state'
+          except Exception as e:
+            bad.oracle_fail += f'; a second identical call raises {type(e).__name__}'
+        return bad
       try:
         if snap([k for _, _, k in clients]) != k0:
           return fail('client-keys-mutated', f'round {r}: the clients\' keys changed during the call')
       except Unreadable as e:
         return fail('client-keys-unreadable', f'round {r}: a client key was deleted by the call: {e}')
-      # ---- second identical call
+      ids = sorted((rid(i) for i in case['rounds'][r]), key=repr)
+      if sorted(dict(diag).keys(), key=repr) != ids:
+        return fail('diagnostics-keys', f'round {r}: diagnostics keys {sorted(dict(diag).keys(), key=repr)} != participants {ids}')
+      if o == snaps[r]:
+        changed_every_round = False
+      al = aliased(state, out)
+      if al:
+        ctx.count('rounds_whose_output_shares_a_mutable_container_with_the_input')
+      O.append(o)
+      Dg.append(d)
+      diags.append(diag)
+      states.append(out)
+      snaps.append(o)
+      idents.append(ident(out))
+      state = out                      # the very object that apply returned
+    ctx.count('straight_histories')
+
+    # ---------------- pass 2: apply every kept round again from its kept state (same object)
+    for t in reversed(range(T)):
       try:
-        with Watchdog(30):
-          out2, diag2 = alg.apply(state, clients)
+        out2, diag2 = call(A, states[t], clients_for(t))
         o2, d2 = snap(out2), snap(dict(diag2))
       except Exception as e:
-        return fail('second-call-raises', f'round {r}: the second identical call raised {type(e).__name__}: '
-                    f'{str(e)[:200]}')
-      ctx.count('applies')
-      if o2 != o1:
-        return fail('nondeterministic', f'round {r}: two calls apply(state, clients) with the same arguments '
-                    f'returned different states: {first_diff(o1, o2)} (first vs second call)')
-      if d2 != d1:
-        return fail('nondeterministic-diagnostics', f'round {r}: two identical calls returned different '
-                    f'diagnostics: {first_diff(d1, d2, "diagnostics")}')
-      ctx.count('double_calls_compared')
-      if snap(state) != s0:
-        return fail('input-mutated', f'round {r}: the second call changed the caller\'s state in place')
-      # ---- diagnostics are keyed by the participants
-      ids = sorted(case['pop'][i]['id'] for i in cohort)
-      if sorted(dict(diag1).keys()) != ids:
-        return fail('diagnostics-keys', f'round {r}: diagnostics keys {sorted(dict(diag1).keys())} != participants {ids}')
-      # ---- restored copy
+        return fail('second-call-raises', f'applying round {t} again from its kept input state raised '
+                    f'{type(e).__name__}: {str(e)[:200]}')
+      if o2 != O[t]:
+        return fail('nondeterministic', f'round {t}: apply(state, clients) called again with the same kept arguments '
+                    f'(after the history had moved on to round {T - 1}) returned a different state: '
+                    f'{first_diff(O[t], o2)} (original vs repeated call)')
+      if d2 != Dg[t]:
+        return fail('nondeterministic-diagnostics', f'round {t}: the repeated call returned different diagnostics: '
+                    f'{first_diff(Dg[t], d2, "diagnostics")}')
+      ctx.count('repeated_calls_compared')
+      bad = recheck(f'after applying round {t} again from its kept state', current=t)
+      if bad:
+        return bad
+
+    # ---------------- pass 3: restored copies; a branch on a second algorithm object
+    for t in range(T):
       try:
-        restored = self.restore(state, case['codec'])
-        if snap(restored) != s0:
+        restored = self.restore(states[t], case['codec'])
+        if snap(restored) != snaps[t]:
           return Outcome(corr_fail=f'{name}: codec {case["codec"]} did not round-trip the state: '
-                         f'{first_diff(s0, snap(restored))}', tags=tuple(tags))
-        with Watchdog(30):
-          out3, diag3 = alg.apply(restored, clients)
+                         f'{first_diff(snaps[t], snap(restored))}', tags=tuple(tags))
+        out3, diag3 = call(A, restored, clients_for(t))
         o3, d3 = snap(out3), snap(dict(diag3))
       except Exception as e:
-        return fail('restore-raises', f'round {r}: continuing from a {case["codec"]}-restored copy raised '
+        return fail('restore-raises', f'round {t}: continuing from a {case["codec"]}-restored copy raised '
                     f'{type(e).__name__}: {str(e)[:200]}')
-      ctx.count('applies')
-      if o3 != o1 or d3 != d1:
-        return fail('restore-differs', f'round {r}: continuing from a {case["codec"]}-restored copy of the state '
-                    f'gives a different result: {first_diff(o1, o3) or first_diff(d1, d3, "diagnostics")}')
+      if o3 != O[t] or d3 != Dg[t]:
+        return fail('restore-differs', f'round {t}: continuing from a {case["codec"]}-restored copy of the state '
+                    f'gives a different result: {first_diff(O[t], o3) or first_diff(Dg[t], d3, "diagnostics")}')
       ctx.count('restored_calls_compared')
-      # ---- the branch that continues from a restored copy
-      if branch is not None:
-        try:
-          with Watchdog(30):
-            branch, _ = alg.apply(branch, clients)
-          ob = snap(branch)
-        except Exception as e:
-          return fail('branch-raises', f'round {r}: the history continued from the restored copy raised '
-                      f'{type(e).__name__}: {str(e)[:200]}')
-        ctx.count('applies')
-        if ob != o1:
-          return fail('branch-differs', f'round {r}: the history continued from the copy restored before round '
-                      f'{case["ck"]} diverges from the original history: {first_diff(o1, ob)}')
+    ck = min(case['ck'], T - 1)
+    try:
+      branch = self.restore(states[ck], case['codec'])
+      bstates = []
+      for t in range(ck, T):
+        branch, _ = call(B, branch, clients_for(t))
+        bstates.append(branch)
+        ob = snap(branch)
+        if ob != O[t]:
+          return fail('branch-differs', f'round {t}: the history continued on a second algorithm object from the '
+                      f'copy restored before round {ck} diverges from the original history: {first_diff(O[t], ob)}')
         ctx.count('branch_states_compared')
-      if r == case['ck']:
-        branch = out3
-      if o1 == s0:
-        changed_every_round = False
-      state = out1
-      states.append(out1)
-      diags.append(diag1)
-    # ---- every earlier state of the history still has its value
-    for t, s0 in enumerate(snaps):
+      for j, b in enumerate(bstates):
+        if snap(b) != O[ck + j]:
+          return fail('history-mutated', f'a state of the restored branch (after round {ck + j}) changed its value '
+                      f'later: {first_diff(O[ck + j], snap(b))}')
+    except Unreadable as e:
+      return fail('history-unreadable', f'a state of the restored branch became unreadable: {e}')
+    except Exception as e:
+      return fail('branch-raises', f'the history continued from the restored copy raised {type(e).__name__}: '
+                  f'{str(e)[:200]}')
+    bad = recheck('after the restored-copy calls')
+    if bad:
+      return bad
+
+    # ---------------- pass 4: fault and retry, again as a straight loop on the same object
+    fr = min(case.get('fault_round', T - 1), T - 1)
+    st = states[0]
+    for t in range(T):
+      if t == fr:
+        fk = case.get('fault_pos', 1) % len(case['rounds'][t])
+        s_before = snap(st)
+        raised = None
+        try:
+          call(A, st, clients_for(t, broken_at=fk))
+        except TimeoutError:
+          return fail('never-returns', f'round {t} with an unreadable client did not return within 30 s')
+        except Exception as e:
+          raised = type(e).__name__
+        ctx.count('faulty_rounds_raised' if raised else 'faulty_rounds_did_not_raise')
+        try:
+          s_now = snap(st)
+        except Unreadable as e:
+          return fail('fault-input-unreadable', f'round {t} raised {raised} at client #{fk}; afterwards its input '
+                      f'state cannot be read: {e}')
+        if s_now != s_before:
+          return fail('fault-input-mutated', f'round {t} raised {raised} while reading client #{fk} and left its '
+                      f'input state half updated: {first_diff(s_before, s_now)} (before vs after the failed call)')
+        bad = recheck(f'after round {t} failed at client #{fk}')
+        if bad:
+          return bad
       try:
-        if snap(states[t]) != s0:
-          return fail('history-mutated', f'the state before round {t} changed its value later in the history: '
-                      f'{first_diff(s0, snap(states[t]))}')
-      except Unreadable as e:
-        return fail('history-unreadable', f'the state before round {t} became unreadable later in the history: {e}')
-    # ---- an old state can be used again after the history moved on (branching from a kept state)
-    if len(case['rounds']) >= 2:
-      cohort = case['rounds'][0]
-      keys = jax.random.split(jax.random.PRNGKey(case['key_seed']), max(2, len(cohort)))
-      clients = [(case['pop'][i]['id'], datasets[i], keys[j]) for j, i in enumerate(cohort)]
-      try:
-        with Watchdog(30):
-          again, dagain = alg.apply(states[0], clients)
-        if snap(again) != snap(states[1]) or snap(dict(dagain)) != snap(dict(diags[0])):
-          return fail('old-state-replay-differs', 'calling round 0 again from the kept initial state after the '
-                      f'history has moved on gives a different result: {first_diff(snap(states[1]), snap(again))}')
+        out, diag = call(A, st, clients_for(t))
+        o = snap(out)
       except Exception as e:
-        return fail('old-state-replay-raises', f'calling round 0 again from the kept initial state raised '
-                    f'{type(e).__name__}: {str(e)[:200]}')
-      ctx.count('applies')
-      ctx.count('old_state_replays_compared')
+        return fail('retry-raises', f'round {t} of the second run of the loop raised {type(e).__name__}: {str(e)[:200]}')
+      if o != O[t] or snap(dict(diag)) != Dg[t]:
+        kind, what = ('retry-differs', 'retrying the round after the failure') if t == fr else \
+                     ('rerun-differs', 'running the loop a second time from the kept initial state')
+        return fail(kind, f'round {t}: {what} does not give the result of the failure-free history: '
+                    f'{first_diff(O[t], o) or "diagnostics differ"}')
+      ctx.count('rerun_rounds_compared')
+      st = out
+    bad = recheck('at the end of the case')
+    if bad:
+      return bad
     for i, d in enumerate(datasets):
       if snap({k: v for k, v in d.all_examples().items()}) != data_snap[i]:
         return fail('client-data-mutated', f'the examples of client {case["pop"][i]["id"]} changed')
     ctx.count('histories')
-    # ---- correspondence with the Lean model
+    # ---------------- correspondence with the Lean model
     corr = None
-    try:
+    if case.get('model', True):
       if name == 'apfl':
         corr = self.corr_apfl(case, ctx, datasets, states)
       elif name == 'agnostic':
         corr = self.corr_window(case, ctx, states)
       elif name == 'fedavg':
         corr = self.corr_fedavg(case, ctx, datasets, states)
-    except core.InfraError:
-      raise
-    nontrivial = len(case['rounds']) >= 2 and repeated and changed_every_round
-    return Outcome(corr_fail=corr, nontrivial=nontrivial, tags=tuple(tags))
+    nontrivial = T >= 2 and repeated and changed_every_round
+    self._last_snaps = snaps
+    return Outcome(corr_fail=corr, nontrivial=nontrivial, tags=tuple(tags),
+                   detail={'state_digests': [digest(s) for s in snaps]})
+
+  @staticmethod
+  def _sname(t):
+    return 's0 = init(...)' if t == 0 else f's{t} (returned by round {t - 1})'
 
   # ------------------------------------------------------------------ model correspondence: algorithms
   def _batches(self, case, ds):
@@ -573,12 +756,14 @@ class C10(core.Property):
       tr = [np.asarray(l) for l in jax.tree_util.tree_leaves(st.opt_state) if np.asarray(l).shape == (D,)]
       if tr and not close(tr[0], [float(v) for v in mo], scale):
         return f'apfl round {r}: server momentum impl {tr[0].tolist()} vs model {[float(v) for v in mo]}'
-      impl_ids = sorted(st.client_states.keys())
+      back = {real_id(case, p['id']): p['id'] for p in case['pop']}
+      impl_tbl = {back.get(k, k): v for k, v in st.client_states.items()}
+      impl_ids = sorted(impl_tbl)
       model_tbl = {int(e[0]): e for e in mt}
       if impl_ids != sorted(model_tbl):
         return f'apfl round {r}: client table ids impl {impl_ids} vs model {sorted(model_tbl)}'
       for cid in impl_ids:
-        cs = st.client_states[cid]
+        cs = impl_tbl[cid]
         if not close(cs.params['w'], [float(v) for v in model_tbl[cid][1]], scale):
           return (f'apfl round {r}: client {cid} params impl {np.asarray(cs.params["w"]).tolist()} vs model '
                   f'{[float(v) for v in model_tbl[cid][1]]}')
@@ -666,66 +851,77 @@ class C10(core.Property):
     return wh.inverse_structured_rotation_pytree(c.drive_pytree(p), key, shapes)
 
   def eval_agg(self, case, ctx):
+    """Same four passes as eval_alg for a compression aggregator: ONE aggregator object per history, every
+    returned CompressionState object fed straight back; kept states re-checked after every call; kept rounds applied
+    again; restored copies and a branch on a second aggregator object; a client iterable that raises half way."""
     jax, jnp = self.jax, self.jnp
     name = case['agg']
     rotated = name == 'rotated'
-    tags = [f'agg={name}', f'rounds={len(case["rounds"])}', f'codec={case["codec"]}', f'levels={case["levels"]}']
+    T = len(case['rounds'])
+    tags = [f'agg={name}', f'rounds={T}', f'codec={case["codec"]}', f'levels={case["levels"]}',
+            f'ids={case.get("idmode", "int")}']
 
     def fail(kind, text):
       return Outcome(oracle_fail=f'{name}: {text}', key=f'C10/{name}/{kind}', tags=tuple(tags))
 
     root = jax.random.PRNGKey(case['key_seed'])
     agg = self.mk_agg(case, root)
+    agg_b = self.mk_agg(case, root)
     state = agg.init()
     if not np.array_equal(np.asarray(state.rng), np.asarray(root)):
       return fail('init-key', 'init() does not carry the key given to the constructor')
     per_param = {'uniform': math.log2(case['levels']), 'rotated': math.log2(case['levels']), 'drive': 1.0,
                  'terngrad': math.log2(3), 'uniform_arith': 0.0}[name]
 
-    def mk_inputs(cohort):
-      return [(cid, {'a': jnp.asarray(a, dtype=jnp.float32), 'b': jnp.asarray(b, dtype=jnp.float32)}, w)
-              for cid, a, b, w in cohort]
+    def mk_inputs(r, fail_after=None):
+      """a fresh lazily evaluated iterable of (client id, params, weight); optionally raises after k clients"""
+      def gen():
+        for j, (cid, a, b, w) in enumerate(case['rounds'][r]):
+          if fail_after is not None and j == fail_after:
+            raise IOError('client update cannot be read')
+          yield (real_id(case, cid), {'a': jnp.asarray(a, dtype=jnp.float32), 'b': jnp.asarray(b, dtype=jnp.float32)}, w)
+      return gen()
 
-    states, snaps, outs = [state], [], []
+    states, snaps, idents = [state], [snap(state)], [ident(state)]
+    O, outs = [], []
+
+    def recheck(when, current=None):
+      for t in range(len(states)):
+        try:
+          now = snap(states[t])
+        except Unreadable as e:
+          return fail('input-unreadable' if t == current else 'history-unreadable',
+                      f'{when}: the kept aggregator state #{t} cannot be read any more: {e}')
+        if now != snaps[t]:
+          return fail('input-mutated' if t == current else 'history-mutated',
+                      f'{when}: the kept aggregator state #{t} changed its value in place: '
+                      f'{first_diff(snaps[t], now)} (value when it was produced vs now)')
+        if ident(states[t]) != idents[t]:
+          return fail('history-containers-replaced', f'{when}: containers of kept state #{t} were replaced')
+      ctx.count('kept_state_rechecks', len(states))
+      return None
+
+    # ---------------- pass 1: straight loop
     seen_keys = [np.asarray(state.rng).tobytes()]
-    for r, cohort in enumerate(case['rounds']):
-      inputs = mk_inputs(cohort)
-      in_snap = snap([p for _, p, _ in inputs])
+    for r in range(T):
+      kept_inputs = list(mk_inputs(r))
+      in_snap = snap([p for _, p, _ in kept_inputs])
       try:
-        s0 = snap(state)
-        out1, st1 = agg.apply(iter(inputs), state)
+        out1, st1 = agg.apply(iter(kept_inputs), state)
         o1 = snap((out1, st1))
       except Unreadable as e:
         return fail('unreadable', f'round {r}: {e}')
       except Exception as e:
         return fail(f'raises-{type(e).__name__}', f'round {r}: apply raised {type(e).__name__}: {str(e)[:200]}')
       ctx.count('agg_applies')
+      bad = recheck(f'round {r} of the loop (each returned state fed straight back)', current=r)
+      if bad:
+        return bad
       try:
-        if snap(state) != s0:
-          return fail('input-mutated', f'round {r}: apply changed the caller\'s aggregator state: '
-                      f'{first_diff(s0, snap(state))}')
-        if snap([p for _, p, _ in inputs]) != in_snap:
+        if snap([p for _, p, _ in kept_inputs]) != in_snap:
           return fail('inputs-mutated', f'round {r}: apply changed the clients\' params')
       except Unreadable as e:
-        return fail('input-unreadable', f'round {r}: after apply the caller\'s state / inputs cannot be read: {e}')
-      try:
-        out2, st2 = agg.apply(iter(mk_inputs(cohort)), state)
-        if snap((out2, st2)) != o1:
-          return fail('nondeterministic', f'round {r}: two calls with the same (inputs, state) differ: '
-                      f'{first_diff(o1, snap((out2, st2)), "(aggregate, state)")} — randomness or accounting lives '
-                      f'outside the state')
-        restored = self.restore(state, case['codec'])
-        if snap(restored) != s0:
-          return Outcome(corr_fail=f'{name}: codec {case["codec"]} did not round-trip the state', tags=tuple(tags))
-        out3, st3 = agg.apply(iter(mk_inputs(cohort)), restored)
-        if snap((out3, st3)) != o1:
-          return fail('restore-differs', f'round {r}: continuing from a {case["codec"]}-restored state differs: '
-                      f'{first_diff(o1, snap((out3, st3)), "(aggregate, state)")}')
-      except Unreadable as e:
-        return fail('unreadable', f'round {r}: {e}')
-      except Exception as e:
-        return fail('second-call-raises', f'round {r}: repeated call raised {type(e).__name__}: {str(e)[:200]}')
-      ctx.count('agg_double_calls_compared')
+        return fail('inputs-unreadable', f'round {r}: after apply the clients\' params cannot be read: {e}')
       # the key is carried in the state: fresh every round, a function of the previous key only
       exp = jax.random.split(state.rng)[0]
       if rotated:
@@ -745,14 +941,94 @@ class C10(core.Property):
           return fail('bits', f'round {r}: num_bits grew by {inc}, expected {want}')
       if not np.all(np.isfinite(np.asarray(out1['a']))) or not np.all(np.isfinite(np.asarray(out1['b']))):
         return fail('nonfinite', f'round {r}: non-finite aggregate')
-      state = st1
-      states.append(st1)
-      snaps.append(s0)
+      O.append(o1)
       outs.append(out1)
-    for t, s0 in enumerate(snaps):
-      if snap(states[t]) != s0:
-        return fail('history-mutated', f'the aggregator state before round {t} changed later')
+      states.append(st1)
+      snaps.append(snap(st1))
+      idents.append(ident(st1))
+      state = st1
+    ctx.count('agg_straight_histories')
+
+    # ---------------- pass 2: every kept round again from its kept state
+    for t in reversed(range(T)):
+      try:
+        o2 = snap(agg.apply(mk_inputs(t), states[t]))
+      except Exception as e:
+        return fail('second-call-raises', f'applying round {t} again from its kept state raised {type(e).__name__}: '
+                    f'{str(e)[:200]}')
+      ctx.count('agg_applies')
+      if o2 != O[t]:
+        return fail('nondeterministic', f'round {t}: two calls with the same (inputs, state) differ: '
+                    f'{first_diff(O[t], o2, "(aggregate, state)")} — randomness or accounting lives outside the state')
+      ctx.count('agg_repeated_calls_compared')
+      bad = recheck(f'after applying round {t} again from its kept state', current=t)
+      if bad:
+        return bad
+
+    # ---------------- pass 3: restored copies, branch on a second aggregator object
+    try:
+      for t in range(T):
+        restored = self.restore(states[t], case['codec'])
+        if snap(restored) != snaps[t]:
+          return Outcome(corr_fail=f'{name}: codec {case["codec"]} did not round-trip the state', tags=tuple(tags))
+        o3 = snap(agg.apply(mk_inputs(t), restored))
+        if o3 != O[t]:
+          return fail('restore-differs', f'round {t}: continuing from a {case["codec"]}-restored state differs: '
+                      f'{first_diff(O[t], o3, "(aggregate, state)")}')
+        ctx.count('agg_restored_calls_compared')
+      ck = case.get('ck', 0) % T
+      bst = self.restore(states[ck], case['codec'])
+      for t in range(ck, T):
+        bo, bst = agg_b.apply(mk_inputs(t), bst)
+        if snap((bo, bst)) != O[t]:
+          return fail('branch-differs', f'round {t}: the history continued on a second aggregator object from the '
+                      f'state restored before round {ck} diverges: {first_diff(O[t], snap((bo, bst)), "(aggregate, state)")}')
+        ctx.count('agg_branch_states_compared')
+    except Unreadable as e:
+      return fail('unreadable', f'restored-copy pass: {e}')
+    except Exception as e:
+      return fail('restore-raises', f'restored-copy pass raised {type(e).__name__}: {str(e)[:200]}')
+
+    # ---------------- pass 4: fault and retry in a second straight loop on the same object
+    fr = case.get('fault_round', T - 1) % T
+    st = states[0]
+    for t in range(T):
+      if t == fr:
+        fk = case.get('fault_pos', 1) % len(case['rounds'][t])
+        s_before = snap(st)
+        raised = None
+        try:
+          agg.apply(mk_inputs(t, fail_after=fk), st)
+        except Exception as e:
+          raised = type(e).__name__
+        ctx.count('agg_faulty_rounds_raised' if raised else 'agg_faulty_rounds_did_not_raise')
+        try:
+          if snap(st) != s_before:
+            return fail('fault-input-mutated', f'round {t} raised {raised} after {fk} clients and left its input '
+                        f'state changed: {first_diff(s_before, snap(st))}')
+        except Unreadable as e:
+          return fail('fault-input-unreadable', f'round {t} raised {raised} after {fk} clients; its input state '
+                      f'cannot be read: {e}')
+      try:
+        o, st2 = agg.apply(mk_inputs(t), st)
+        so = snap((o, st2))
+      except Exception as e:
+        return fail('retry-raises', f'round {t} of the second run raised {type(e).__name__}: {str(e)[:200]}')
+      if so != O[t]:
+        kind, what = ('retry-differs', 'retrying the round after the failure') if t == fr else \
+                     ('rerun-differs', 'running the loop a second time from the kept initial state')
+        return fail(kind, f'round {t}: {what} does not reproduce the failure-free history: '
+                    f'{first_diff(O[t], so, "(aggregate, state)")}')
+      ctx.count('agg_rerun_rounds_compared')
+      st = st2
+    bad = recheck('at the end of the case')
+    if bad:
+      return bad
     ctx.count('agg_histories')
+    self._last_snaps = O
+    detail = {'state_digests': [digest(o) for o in O]}
+    if not case.get('model', True):
+      return Outcome(nontrivial=T >= 2, tags=tuple(tags), detail=detail)
 
     # ---- correspondence with the model: keys named by the model, quantised by the real quantizers
     counts = [len(co) for co in case['rounds']]
@@ -792,7 +1068,95 @@ class C10(core.Property):
       if not np.array_equal(np.asarray(states[r + 1].rng), np.asarray(self.path_key(root, mkey))):
         corr = f'{name} round {r}: state key differs from the model\'s path {mkey}'
         break
-    return Outcome(corr_fail=corr, nontrivial=len(case['rounds']) >= 2, tags=tuple(tags))
+    return Outcome(corr_fail=corr, nontrivial=T >= 2, tags=tuple(tags), detail=detail)
+
+  # ------------------------------------------------------------------ two interpreter processes
+  def eval_xproc(self, case, ctx):
+    """The same histories in this process and in two fresh interpreters that differ only in PYTHONHASHSEED
+    (what happens whenever a job is resumed in a new process): outputs must be bit-identical."""
+    tags = ['kind=xproc', f'subcases={len(case["subcases"])}']
+    mine = []
+    for sub in case['subcases']:
+      out = self.evaluate({**sub, 'model': False}, ctx)
+      if out.oracle_fail or out.corr_fail:
+        out.tags = tuple(tags)
+        return out
+      mine.append((out.detail['state_digests'], getattr(self, '_last_snaps', None)))
+    tmp = tempfile.mkdtemp(prefix='c10x_', dir=self._tmpdir)
+    cpath = os.path.join(tmp, 'cases.json')
+    with open(cpath, 'w') as fh:
+      json.dump([{**s, 'model': False} for s in case['subcases']], fh)
+    boot = ('import sys; sys.path[:0] = [%r, %r]; from props import c10; c10.child_main(sys.argv[1], sys.argv[2])'
+            % (os.path.join(core.VERIF, 'harness'), core.REPO))
+    procs = []
+    for hs in case['hashseeds']:
+      env = dict(os.environ, PYTHONHASHSEED=str(hs))
+      opath = os.path.join(tmp, f'out_{hs}.pkl')
+      log = open(os.path.join(tmp, f'log_{hs}.txt'), 'w')
+      procs.append((hs, opath, log, subprocess.Popen([sys.executable, '-c', boot, cpath, opath], env=env,
+                                                    stdout=log, stderr=subprocess.STDOUT)))
+    results = {}
+    for hs, opath, log, p in procs:
+      try:
+        p.wait(timeout=600)
+      except subprocess.TimeoutExpired:
+        p.kill()
+        raise core.InfraError('cross-process probe timed out')
+      log.close()
+      if p.returncode != 0 or not os.path.exists(opath):
+        raise core.InfraError('cross-process probe failed: ' + open(log.name).read()[-600:])
+      with open(opath, 'rb') as fh:
+        results[hs] = pickle.load(fh)
+    ctx.count('cross_process_probes')
+    h1, h2 = case['hashseeds'][0], case['hashseeds'][1]
+    for i, sub in enumerate(case['subcases']):
+      name = sub.get('alg') or sub.get('agg')
+      ra, rb = results[h1][i], results[h2][i]
+      for who, r in ((h1, ra), (h2, rb)):
+        if r.get('fail'):
+          return Outcome(oracle_fail=f'{name}: in a fresh interpreter (PYTHONHASHSEED={who}): {r["fail"]}',
+                         key=r.get('key'), tags=tuple(tags))
+      what = None
+      if ra['digests'] != rb['digests']:
+        t = next(j for j, (x, y) in enumerate(zip(ra['digests'], rb['digests'])) if x != y)
+        what = (f'PYTHONHASHSEED={h1} vs {h2}', first_diff(ra['snaps'][t], rb['snaps'][t], 'result'), t)
+      elif mine[i][0] != ra['digests']:
+        t = next(j for j, (x, y) in enumerate(zip(mine[i][0], ra['digests'])) if x != y)
+        what = (f'this process vs a fresh interpreter (PYTHONHASHSEED={h1})', 'state digests differ', t)
+      if what:
+        return Outcome(oracle_fail=f'{name}: the same history (same clients, same client ids {sub.get("idmode")}, '
+                       f'same initial state) gives different results in two interpreter processes ({what[0]}), first '
+                       f'at result #{what[2]}: {what[1]} — the outputs depend on something outside '
+                       f'(state, clients), e.g. the per-process salt of hash()',
+                       key=f'C10/{name}/process-dependent', tags=tuple(tags))
+      ctx.count('cross_process_histories_compared')
+    return Outcome(nontrivial=True, tags=tuple(tags))
+
+
+class _ChildCtx:
+  drv = None
+  tier = 'quick'
+
+  def count(self, *a, **k):
+    pass
+
+
+def child_main(case_path, out_path):
+  """Entry point of the cross-process probe: runs the sub-histories, pickles digests and snapshots."""
+  os.environ.setdefault('JAX_PLATFORMS', 'cpu')
+  prop = C10()
+  ctx = _ChildCtx()
+  prop.setup(ctx)
+  res = []
+  for sub in json.load(open(case_path)):
+    prop._last_snaps = None
+    out = prop.evaluate(sub, ctx)
+    if out.oracle_fail or out.corr_fail:
+      res.append({'fail': out.oracle_fail or out.corr_fail, 'key': out.key})
+    else:
+      res.append({'digests': out.detail['state_digests'], 'snaps': prop._last_snaps})
+  with open(out_path, 'wb') as fh:
+    pickle.dump(res, fh)
 
 
 PROPERTY = C10
